@@ -553,7 +553,7 @@ def run_cases(b, drv, cases, wd, part, probes3):
              unspecified=counts['unspecified'], prefix_probes_unjudged=counts['unspecified'],
              find_by_gtype_skipped_no_registrable_name=counts['na'])
     for ci, case in enumerate(ok_cases):
-        part.add(states=len(case.docs), transitions=len(case.docs), traces_validated_against_impl=1)
+        part.add(states=1, transitions=1, traces_validated_against_impl=1, typelibs_compiled_and_probed=len(case.docs))
         part.nontrivial('T' + case.key())
         part.outcome(('index-present', tuple(getattr(case, 'has_index', ()))))
         if not all(getattr(case, 'has_index', [0])):
